@@ -30,6 +30,7 @@ type Analysis struct {
 	TrackFields     map[string]bool              // memory of these field names partitions the state
 	NoInline        map[string]bool              // local callees not to inline
 	CallModel       func(a *Analysis, st *State, call ssa.CallInstruction, args []*Expr) (*Expr, bool)
+	OpaqueFields    map[string]bool                                   // "Struct.field": loads are never store-forwarded (always versioned atoms)
 	EventArgs       func(st *State, desc string, args []*Expr) string // optional argument rendering for call events
 	EventsInInlined bool
 
@@ -40,11 +41,14 @@ type Analysis struct {
 	Returns   []ReturnSite
 	Undecided []string
 
-	moduli   []int64
-	visits   map[string]int
-	record   bool
-	inlineID int
-	depth    int
+	moduli    []int64
+	baseFrame *frame // frame of a nested (inlined multi-block) analysis
+	entry     *State // entry state override for nested analyses
+	stack     []*ssa.Function
+	visits    map[string]int
+	record    bool
+	inlineID  int
+	depth     int
 }
 
 // ReturnSite is a reachable return with its abstract state and result terms.
@@ -88,6 +92,9 @@ type frame struct {
 }
 
 func (a *Analysis) exprOf(st *State, fr *frame, v ssa.Value) *Expr {
+	if fr == nil {
+		fr = a.baseFrame
+	}
 	switch x := v.(type) {
 	case *ssa.Const:
 		if x.Value == nil {
@@ -144,6 +151,9 @@ func (a *Analysis) bind(st *State, fr *frame, v ssa.Value, e *Expr) {
 }
 
 func (a *Analysis) freshLeaf(st *State, fr *frame, kind string, v ssa.Value) *Expr {
+	if fr == nil {
+		fr = a.baseFrame
+	}
 	pre := ""
 	if fr != nil {
 		pre = fr.prefix
@@ -183,7 +193,11 @@ func (a *Analysis) step(st *State, fr *frame, in ssa.Instruction) {
 		case token.SUB:
 			a.bind(st, fr, x, mkBin(token.SUB, mkConst(0, x.Type()), xe, x.Type(), x.Type()))
 		case token.MUL:
-			a.bind(st, fr, x, st.load(xe, x.Type()))
+			if xe.Op == "fa" && a.OpaqueFields != nil && a.OpaqueFields[xe.Aux+"."+xe.S] {
+				a.bind(st, fr, x, mk("ld", x.Type(), "@"+st.ver[aliasClass(xe)], 0, xe))
+			} else {
+				a.bind(st, fr, x, st.load(xe, x.Type()))
+			}
 		case token.ARROW:
 			a.bind(st, fr, x, a.freshLeaf(st, fr, "val", x))
 		default:
@@ -266,6 +280,18 @@ func (a *Analysis) step(st *State, fr *frame, in ssa.Instruction) {
 	case *ssa.Range, *ssa.Next:
 		a.bind(st, fr, x.(ssa.Value), a.freshLeaf(st, fr, "val", x.(ssa.Value)))
 	case *ssa.Select:
+		for _, ss := range x.States {
+			if ss.Send == nil {
+				continue
+			}
+			cn := chanName(a.exprOf(st, fr, ss.Chan))
+			st.event("offer:" + cn)
+			if a.EventArgs != nil {
+				if s := a.EventArgs(st, "offer:"+cn, []*Expr{a.exprOf(st, fr, ss.Send)}); s != "" {
+					st.event("offer:" + cn + "(" + s + ")")
+				}
+			}
+		}
 		l := a.freshLeaf(st, fr, "val", x)
 		a.bind(st, fr, x, l)
 		n := int64(len(x.States))
@@ -694,9 +720,16 @@ func chanName(e *Expr) string {
 	return trunc(e.Key, 40)
 }
 
+// curBaseFrame is the frame of the nested analysis currently running (site
+// tokens of an inlined helper are prefixed with its call path).
+var curBaseFrame *frame
+
 // siteTok is a finite, deterministic token naming a write site.
 func siteTok(fr *frame, in ssa.Instruction) string {
 	pre := ""
+	if fr == nil && in.Parent() != nil && curBaseFrame != nil && curBaseFrame.fn == in.Parent() {
+		fr = curBaseFrame
+	}
 	if fr != nil {
 		pre = fr.prefix
 	}
@@ -797,6 +830,9 @@ func (a *Analysis) canInline(f *ssa.Function) bool {
 	if a.NoInline != nil && a.NoInline[a.P.Name(f)] {
 		return false
 	}
+	if n := a.P.Name(f); f.Parent() == nil && knownFuncs[n] && !knownInline[n] {
+		return false
+	}
 	if len(f.Blocks) != 1 || a.depth >= 3 {
 		return false
 	}
@@ -814,6 +850,9 @@ func (a *Analysis) canInline(f *ssa.Function) bool {
 
 func (a *Analysis) inline(st *State, fr *frame, c *ssa.Call, callee *ssa.Function, args []*Expr) (*Expr, bool) {
 	a.inlineID++
+	if fr == nil {
+		fr = a.baseFrame
+	}
 	pre := ""
 	if fr != nil {
 		pre = fr.prefix
@@ -952,6 +991,9 @@ func (a *Analysis) partKey(st *State) string {
 				}
 			}
 		}
+	}
+	for k, v := range st.tags {
+		parts = append(parts, fmt.Sprintf("%s>%d", k, v))
 	}
 	if len(a.TrackFields) > 0 {
 		for k, v := range st.mem {
@@ -1201,11 +1243,19 @@ func (a *Analysis) Run() {
 		return
 	}
 	entry := newState(a)
-	if a.Init != nil {
+	if a.entry != nil {
+		entry = a.entry
+		entry.an = a
+	} else if a.Init != nil {
 		a.Init(a, entry)
 	}
 	if entry.dead {
 		return
+	}
+	if a.baseFrame != nil {
+		prev := curBaseFrame
+		curBaseFrame = a.baseFrame
+		defer func() { curBaseFrame = prev }()
 	}
 	entryKey := a.partKey(entry)
 	a.In[fn.Blocks[0]] = map[string]*State{entryKey: entry}
@@ -1386,54 +1436,175 @@ func rpo(fn *ssa.Function) []*ssa.BasicBlock {
 	return post
 }
 
-// transferBlock runs the block's instructions on st and emits successor states.
-func (a *Analysis) transferBlock(b *ssa.BasicBlock, st *State, emit func(to *ssa.BasicBlock, out *State)) {
+// transferBlock runs the block's instructions on st and emits successor
+// states. A call of an unknown local helper is analysed in this context and
+// may fan the state out (one state per return of the helper).
+func (a *Analysis) transferBlock(b *ssa.BasicBlock, st0 *State, emit func(to *ssa.BasicBlock, out *State)) {
+	states := []*State{st0}
 	for _, in := range b.Instrs {
 		if _, isPhi := in.(*ssa.Phi); isPhi {
 			continue
 		}
 		if a.record {
-			a.At[in] = append(a.At[in], st.clone())
+			for _, st := range states {
+				a.At[in] = append(a.At[in], st.clone())
+			}
 		}
 		switch x := in.(type) {
 		case *ssa.If:
-			cond := a.exprOf(st, nil, x.Cond)
-			v := st.evalBool(cond)
-			if v.Contains(1) {
-				t := st.clone()
-				t.assume(cond, true)
-				if !t.dead {
-					emit(b.Succs[0], t)
+			for _, st := range states {
+				cond := a.exprOf(st, nil, x.Cond)
+				v := st.evalBool(cond)
+				if v.Contains(1) {
+					t := st.clone()
+					t.assume(cond, true)
+					if !t.dead {
+						emit(b.Succs[0], t)
+					}
 				}
-			}
-			if v.Contains(0) {
-				f := st.clone()
-				f.assume(cond, false)
-				if !f.dead {
-					emit(b.Succs[1], f)
+				if v.Contains(0) {
+					f := st.clone()
+					f.assume(cond, false)
+					if !f.dead {
+						emit(b.Succs[1], f)
+					}
 				}
 			}
 			return
 		case *ssa.Jump:
-			emit(b.Succs[0], st)
+			for _, st := range states {
+				emit(b.Succs[0], st)
+			}
 			return
 		case *ssa.Return:
 			if a.record {
-				var rs []*Expr
-				for _, r := range x.Results {
-					rs = append(rs, a.exprOf(st, nil, r))
+				for _, st := range states {
+					var rs []*Expr
+					for _, r := range x.Results {
+						rs = append(rs, a.exprOf(st, nil, r))
+					}
+					a.Returns = append(a.Returns, ReturnSite{Instr: x, State: st.clone(), Results: rs})
 				}
-				a.Returns = append(a.Returns, ReturnSite{Instr: x, State: st.clone(), Results: rs})
 			}
 			return
 		case *ssa.Panic:
 			return
 		}
-		a.step(st, nil, in)
-		if st.dead {
+		var next []*State
+		for _, st := range states {
+			if c, ok := in.(*ssa.Call); ok {
+				if callee := a.P.staticLocalCallee(c); callee != nil && a.shouldInlineMulti(c, callee) {
+					if outs, ok := a.inlineMulti(st, c, callee); ok {
+						next = append(next, outs...)
+						continue
+					}
+				}
+			}
+			a.step(st, nil, in)
+			if !st.dead {
+				next = append(next, st)
+			}
+		}
+		states = next
+		if len(states) == 0 {
 			return
 		}
+		if len(states) > 24 {
+			// keep the fan-out bounded: join everything (sound)
+			m := states[0]
+			for _, s := range states[1:] {
+				m.join(s, false, fmt.Sprintf("J%d", b.Index))
+			}
+			states = []*State{m}
+		}
 	}
+}
+
+// shouldInlineMulti: the callee is a local function the rule sets do not know
+// by name (a helper added after they were written), small enough, not
+// recursive, without go/defer.
+func (a *Analysis) shouldInlineMulti(c *ssa.Call, callee *ssa.Function) bool {
+	if callee.Parent() != nil {
+		return false
+	}
+	if n := a.P.Name(callee); knownFuncs[n] && (!knownInline[n] || len(callee.Blocks) == 1) {
+		return false // opaque by policy, or handled by single-block inlining
+	}
+	if a.NoInline != nil && a.NoInline[a.P.Name(callee)] {
+		return false
+	}
+	if len(a.stack) >= 3 || callee == a.Fn || len(callee.Blocks) == 0 || len(callee.Blocks) > 60 || callee.TypeParams().Len() > 0 {
+		return false
+	}
+	for _, f := range a.stack {
+		if f == callee {
+			return false
+		}
+	}
+	ok := true
+	allInstrs(callee, func(in ssa.Instruction) {
+		switch in.(type) {
+		case *ssa.Go, *ssa.Defer, *ssa.RunDefers:
+			ok = false
+		}
+	})
+	return ok
+}
+
+// inlineMulti analyses callee from the caller's state with its parameters
+// bound to the argument terms and returns one caller state per reachable
+// return (the call's value bound to the returned terms).
+func (a *Analysis) inlineMulti(st *State, c *ssa.Call, callee *ssa.Function) ([]*State, bool) {
+	args := a.argExprs(st, nil, c.Common())
+	if len(args) != len(callee.Params) {
+		return nil, false
+	}
+	pre := ""
+	if a.baseFrame != nil {
+		pre = a.baseFrame.prefix
+	}
+	nf := &frame{fn: callee, prefix: fmt.Sprintf("%sm%s.", pre, c.Name()), params: map[ssa.Value]*Expr{}}
+	for i, p := range callee.Params {
+		nf.params[p] = args[i]
+	}
+	sub := NewAnalysis(a.P, callee)
+	sub.AtomHook, sub.EventArgs, sub.CallModel, sub.NoInline, sub.TrackFields, sub.OpaqueFields = a.AtomHook, a.EventArgs, a.CallModel, a.NoInline, a.TrackFields, a.OpaqueFields
+	sub.baseFrame = nf
+	sub.stack = append(append([]*ssa.Function{}, a.stack...), a.Fn)
+	seen := map[int64]bool{}
+	for _, m := range a.moduli {
+		seen[m] = true
+	}
+	for _, m := range sub.moduli {
+		if !seen[m] {
+			a.moduli = append(a.moduli, m)
+		}
+	}
+	sub.moduli = a.moduli
+	entry := st.clone()
+	entry.event("call:" + a.P.Name(callee))
+	sub.entry = entry
+	sub.Run()
+	if len(sub.Undecided) > 0 {
+		a.Undecided = append(a.Undecided, sub.Undecided...)
+	}
+	var outs []*State
+	for _, r := range sub.Returns {
+		o := r.State
+		o.an = a
+		if len(sub.Returns) > 1 && len(o.tags) < 6 {
+			o.tags[nf.prefix] = returnOrdinal(callee, r.Instr)
+		}
+		switch len(r.Results) {
+		case 0:
+		case 1:
+			o.env[c] = r.Results[0]
+		default:
+			o.env[c] = mk("tuple", c.Type(), "", 0, r.Results...)
+		}
+		outs = append(outs, o)
+	}
+	return outs, true
 }
 
 // ---- queries ---------------------------------------------------------------------
